@@ -20,6 +20,11 @@ for _p in ('C01', 'C02', 'C03', 'C04', 'C05', 'C06', 'C07', 'C08', 'C09',
 PLANS['C12'] = [('sem', W(60000, 4000000, batch=1000)),
                 ('world', W(8000, 300000, gen_prop='C04'))]
 
+# C16: focused delivery histories, then end-to-end non-seekable downloads
+PLANS['C16'] = [('defer', W(60000, 3000000, batch=1000)),
+                ('world', W(12000, 500000, gen_prop='C02'))]
+PLANS['C17'] = [('coord', W(80000, 5000000, batch=1000))]
+
 
 def run(prop, tier, runs=None, cap=None):
     if prop not in PLANS:
